@@ -310,7 +310,7 @@ func TestC05ARace(t *testing.T) {
 }
 
 func TestC05A(t *testing.T) {
-	evid.Extra("rule", "C05A: charts with 1-4 template files per chart (1-3 documents each, hooks with weights, unknown kinds), partials, 0-3 subcharts on two levels each with or without NOTES.txt, SubNotes on/off, built from a grammar of snippets limited to functions documented as deterministic (ranged maps, toYaml/toJson/fromYaml, Files.Get/Glob/Lines/AsConfig, include, tpl, merge, pick, sha256sum, set on shared values read by other files, fail). Oracles: 6 renders of freshly built copies are identical (manifest, hooks with order, notes, or the error text); 2 renders with templates, files, dependencies and the values map loaded in permuted order equal the first; 8 concurrent renders of private copies equal the first. Non-trivial = at least two template files and a ranged map, several NOTES files or a subchart; distinct by the chart.")
+	evid.Extra("rule", "C05A: charts with 1-4 template files per chart (1-3 documents each, hooks with weights, unknown kinds), partials, 0-3 subcharts on two levels each with or without NOTES.txt, SubNotes on/off, built from a grammar of snippets limited to functions documented as deterministic (ranged maps, toYaml/toJson/fromYaml, Files.Get/Glob/Lines/AsConfig, include, tpl, merge, pick, sha256sum, set on shared values read by other files, fail, .Capabilities.APIVersions.Has / KubeVersion), rendered under generated release options (extra API versions, kube version). Oracles: 6 renders of freshly built copies are identical (manifest, hooks with order, notes, or the error text); 2 renders with templates, files, dependencies and the values map loaded in permuted order equal the first; a render of the same chart under OTHER release options in between changes nothing; 8 concurrent renders of private copies, next to 8 renders under other release options, equal the first (TestC05ARace: the same in a race-detector binary). Non-trivial = at least two template files and a ranged map, several NOTES files or a subchart; distinct by the chart.")
 	evid.Extra("assumptions", []string{"functions documented as random / time / cluster dependent (now, rand*, uuidv4, gen*, htpasswd, encrypt*, lookup) and unsorted keys/values are not in the grammar: a chart using them is nondeterministic by its own doing"})
 	rapid.Check(t, c05AProp)
 }
@@ -540,7 +540,7 @@ func c05BProp(t *rapid.T) {
 }
 
 func TestC05B(t *testing.T) {
-	evid.Extra("rule", "C05B: twin renders of the same chart under two host states that differ in the environment variable the templates try to read, the working directory, and the contents of canary files at every path the chart tries to reach (Files.Get/Glob/Lines with ../.. and absolute paths; schema $ref as #/definitions, file:// URL, absolute path, relative, ../relative, relative to a file:// $id, http(s)://): outputs and accept/reject outcomes must be identical, no canary content may appear, env/expandenv must fail to parse, getHostByName must yield \"\" when DNS is not enabled (also through a real install followed by real and server-dry-run upgrades). Non-trivial = a case that reaches for something outside the chart; distinct by the case.")
+	evid.Extra("rule", "C05B: twin renders of the same chart under two host states that differ in the environment variable the templates try to read, the working directory, and the contents of canary files at every path the chart tries to reach (Files.Get/Glob/Lines with ../.. and absolute paths; schema $ref as #/definitions, file:// URL, absolute path, relative, ../relative, relative to a file:// $id, http(s)://): outputs and accept/reject outcomes must be identical, no canary content may appear, env/expandenv must fail to parse, getHostByName must yield \"\" when DNS is not enabled, called directly or through tpl, nested tpl and a named template included from tpl text (also through a real install followed by real and server-dry-run upgrades). Non-trivial = a case that reaches for something outside the chart; distinct by the case.")
 	evid.Extra("assumptions", []string{"process-wide state (cwd, environment) is changed and restored by the test; the test functions of this property never run in parallel"})
 	rapid.Check(t, c05BProp)
 }
